@@ -351,7 +351,18 @@ def _doubling(kind):
     return gen
 
 
+def _deep_module_scope(n):
+    """One module name of n segments, one alias whose anonymous type holds n/6 unresolvable names, n/3 uses of the alias: every
+    lookup walks the n enclosing scopes, building a candidate name of O(n) characters for each."""
+    m, uses = max(1, n // 6), max(1, n // 3)
+    t = "Q"
+    for _ in range(m - 1):
+        t = "Result<Q,%s>" % t
+    return "module " + "::".join(["a"] * n) + "\ntypealias T=" + t + "\nstruct S{" + ",".join("f%d:T" % i for i in range(uses)) + "}\n"
+
+
 SCALING = {
+    "deep-module-scope": _deep_module_scope,
     "doubling-keys-valid-leaf": _doubling("keys-valid-leaf"),
     "doubling-keys-invalid-leaf": _doubling("keys-invalid-leaf"),
     "doubling-containment": _doubling("contain-acyclic"),
@@ -637,6 +648,15 @@ def large_input_witnesses():
     yield "nested-if-20000", ("module M\n" + "#if A\n" * n + "struct S {}\n" + "#endif\n" * n, ["-D", "A"], False)
     n = 60000
     yield "nested-sequence-60000-request", ("module M\nstruct S { a: " + "Sequence<" * n + "bool" + ">" * n + " }\n", [], True)
+    # single lines of more than 65535 characters, with a diagnostic that starts beyond that column or spans more than that many
+    # characters (rendered with a snippet in the human format): ordinary diagnostics are expected, nothing else
+    n = 70000
+    yield "long-line-returns-message", ("module M\n/// @returns: " + "x" * n + "\nstruct S {}\n", [], False)
+    yield "long-line-broken-link", ("module M\n/// {@link " + "Y" * n + "}\nstruct S {}\n", [], False)
+    yield "long-line-late-error", ("module M\nstruct S { " + " " * n + "a: Nope }\n", [], False)
+    yield "long-line-long-identifier", ("module M\nstruct S { a: " + "Z" * n + " }\n", [], False)
+    yield "long-line-attribute-string", ("module M\n[foo(\"" + "s" * n + "\")] struct S {}\n", [], False)
+    yield "long-line-tabs", ("module M\nstruct S { a:" + "\t" * 20000 + "Nope }\n", [], False)
     # controls one order of magnitude smaller: these must simply compile
     n = 1200
     yield "control-struct-chain-1200", ("module M\n" + "".join("struct S%d { a: S%d }\n" % (i, i + 1) for i in range(n)) + "struct S%d { a: bool }\n" % n, [], False)
